@@ -34,6 +34,10 @@ def r1(ctx: Ctx) -> None:
     for p in paths:
         sb, bb = _best_term(p, "sell"), _best_term(p, "buy")
         m = {strip_ver(sb): ("sym", "S"), strip_ver(bb): ("sym", "B")}
+        # the length of a book is the length of its queue (OrderBook.__len__), however it is asked for
+        for nm_ in ("sell_order_book", "buy_order_book"):
+            bk = ("attr", ("sym", "self"), nm_)
+            m[("call", ("name", "len"), (("attr", bk, "priority_queue"),), (), None)] = ("call", ("name", "len"), (bk,), (), None)
         conds = []
         for c, pol, _ in p.conds:
             c2 = substitute(strip_ver(c), m)
